@@ -10,7 +10,9 @@ Producer: harness/legacy_common.py.
 grid ops (agents are 0..NAGENTS-1; `:` introduces the script of raw random draws)
   place a x y | remove a | move a x y | swap a b | mte a : r… |
   mto a random|closest|other none|warning|error K x1 y1 … xK yK : r…
-  empties | exists | isempty x y | mask | agents | iter | get x y | dump
+  empties | exists | isempty x y (any ints: Python indexing) | mask | agents | iter | get x y | dump
+  geti x (grid[x]) | getl K x1 y1 … (grid[(x1,y1),…]) | gets IX IY (grid[ix, iy]; IX/IY = I<int> or S<start>/<stop>/<step>, _ = None)
+  tadj x y (torus_adj) | oob x y (out_of_bounds)
   nbhd|inbhd x y MOORE IC R | nbrs|inbrs x y MOORE IC R | nmask x y MOORE IC R | clc|iclc K x1 y1 …
   hnbhd|ihnbhd x y IC R | hnbrs|ihnbrs x y IC R
 net ops (node ids are naturals; a node id ≥ N does not exist)
@@ -23,6 +25,7 @@ def words (s : String) : List String := (s.splitOn " ").filter (· ≠ "")
 def fmtErr : Err → String
   | .full => "err Full" | .oob => "err OutOfBounds" | .type => "err Type" | .value => "err Value"
   | .noPos => "err NoPos" | .noEmpty => "err NoEmpty" | .script => "err Script" | .key => "err Key"
+  | .index => "err Index"
 
 def fmtRes : Res → String
   | .ok => "ok"
@@ -55,6 +58,17 @@ def splitScript (ws : List String) : Option (List String × List String) :=
   | (a, _ :: b) => some (a, b)
   | _ => none
 
+def optInt? (s : String) : Option (Option Int) := if s = "_" then some none else s.toInt?.map some
+
+/-- `I<int>` or `S<start>/<stop>/<step>` -/
+def ix? (s : String) : Option Grid.Ix :=
+  if s.startsWith "I" then (s.drop 1).toString.toInt?.map Grid.Ix.int
+  else if s.startsWith "S" then
+    match ((s.drop 1).toString.splitOn "/").map optInt? with
+    | [some a, some b, some c] => some (.slice ⟨a, b, c⟩)
+    | _ => none
+  else none
+
 inductive St where
   | none
   | grid (g : Grid) (hex : Bool) (nag : Nat) (nc : NCache) (hc : HCache)
@@ -80,8 +94,17 @@ def gridLine (g : Grid) (hex : Bool) (nag : Nat) (nc : NCache) (hc : HCache) (ws
   let okA (a : Nat) : Bool := a < nag
   let clc (k : String) (rest : List String) : St × String :=
     match k.toNat?, (ints? rest).bind pairs with
-    | some k, some cs => if cs.length = k && cs.all (inGridB g) then (keep, sp (fmtIds (cellsContents g cs))) else bad
+    | some k, some cs =>
+      if cs.length = k then
+        match g.rawCells cs with
+        | .ok cells => (keep, sp (fmtIds (cellsContents g cells)))
+        | .error e => (keep, fmtErr e)
+      else bad
     | _, _ => bad
+  let showCells (r : Except Err (List Coord)) : St × String :=
+    match r with
+    | .ok cells => (keep, sp (" ".intercalate (cells.map fun c => fmtCell (g.content c))))
+    | .error e => (keep, fmtErr e)
   match ws with
   | ["place", a, x, y] =>
     match a.toNat?, x.toInt?, y.toInt? with
@@ -114,7 +137,33 @@ def gridLine (g : Grid) (hex : Bool) (nag : Nat) (nc : NCache) (hc : HCache) (ws
   | ["exists"] => let r := g.existsEmpty; (St.grid r.1 hex nag nc hc, if r.2 then "ok 1" else "ok 0")
   | ["isempty", x, y] =>
     match x.toInt?, y.toInt? with
-    | some x, some y => if inGridB g (x, y) then (keep, if g.isCellEmpty (x, y) then "ok 1" else "ok 0") else bad
+    | some x, some y =>
+      match g.isCellEmptyRaw (x, y) with
+      | .ok b => (keep, if b then "ok 1" else "ok 0")
+      | .error e => (keep, fmtErr e)
+    | _, _ => bad
+  | ["geti", x] =>
+    match x.toInt? with
+    | some x => showCells (g.getColumn x)
+    | _ => bad
+  | "getl" :: k :: rest =>
+    match k.toNat?, (ints? rest).bind pairs with
+    | some k, some ps => if ps.length = k then showCells (g.getMany ps) else bad
+    | _, _ => bad
+  | ["gets", ix, iy] =>
+    match ix? ix, ix? iy with
+    | some ix, some iy => showCells (g.getItem2 ix iy)
+    | _, _ => bad
+  | ["tadj", x, y] =>
+    match x.toInt?, y.toInt? with
+    | some x, some y =>
+      match g.torusAdj (x, y) with
+      | .ok c => (keep, "ok " ++ fmtCoord c)
+      | .error e => (keep, fmtErr e)
+    | _, _ => bad
+  | ["oob", x, y] =>
+    match x.toInt?, y.toInt? with
+    | some x, some y => (keep, if g.oob (x, y) then "ok 1" else "ok 0")
     | _, _ => bad
   | ["mask"] => (keep, sp (fmtBits (g.allCells.map g.mask)))
   | ["agents"] => (keep, sp (fmtIds g.agentsList))
